@@ -29,9 +29,25 @@ def gen_scene(r, cfg):
     pose[0] = (0, 0)
     pose[1] = (b, b * r.uniform(0.6, 1.0))
     D = 3.5 * b + float(r.uniform(0, 2 * b))
-    cols = int(np.ceil(np.sqrt(K)))
-    slots = r.permutation(cols * cols)[:K]
-    centres = np.array([[100 + D * (s % cols), 100 + D * (s // cols)] for s in slots], float)
+    layout = str(r.choice(["grid", "random", "staircase", "row"]))
+    if layout == "grid":
+        cols = int(np.ceil(np.sqrt(K)))
+        slots = r.permutation(cols * cols)[:K]
+        centres = np.array([[100 + D * (s % cols), 100 + D * (s // cols)] for s in slots], float)
+    elif layout == "random":  # rejection sampling with a minimum centre distance
+        centres = []
+        while len(centres) < K:
+            c = r.uniform(100, 100 + D * (K + 1), 2)
+            if all(np.hypot(*(c - q)) >= D for q in centres):
+                centres.append(c)
+        centres = np.array(centres)
+    elif layout == "staircase":  # far apart along x, bodies just clear of each other along y
+        dy = b * r.uniform(1.0, 1.8)
+        centres = np.array([[100 + D * k, 100 + dy * k] for k in r.permutation(K)], float)
+        if r.random() < 0.5:
+            centres = centres[:, ::-1].copy()
+    else:
+        centres = np.array([[100 + D * k, 100.0] for k in r.permutation(K)], float)
     amp = 0.25 * b * r.uniform(0.2, 1.0, K)
     step = 0.05 * b
     phase = r.uniform(0, 2 * np.pi, K)
